@@ -95,3 +95,15 @@ package bulking
 //@     invariant true
 //@   loop 3:
 //@     invariant true
+
+// ---- elements.go: what a decoded bulk element carries (C38) ------------------------------------------------------
+// The producer side of processElement's requires: an element is accepted only with one of the four actions, spelled
+// exactly, and then carries the payload type processElement asserts. (json.Unmarshal refuses a nil target, which is
+// what happens for an unknown action; reflect.ValueOf(req).Elem().Interface() is modelled as "the value req points to".)
+//@ func UnmarshalBulkElementPayload(action string, data []byte) (r any, err error)
+//@   property C38
+//@   ensures err == nil ==> (action == "CREATE_TRANSACTION" || action == "ADD_METADATA" || action == "REVERT_TRANSACTION" || action == "DELETE_METADATA")
+//@   ensures err == nil && action == "CREATE_TRANSACTION" ==> is(r, TransactionRequest)
+//@   ensures err == nil && action == "ADD_METADATA" ==> is(r, AddMetadataRequest)
+//@   ensures err == nil && action == "REVERT_TRANSACTION" ==> is(r, RevertTransactionRequest)
+//@   ensures err == nil && action == "DELETE_METADATA" ==> is(r, DeleteMetadataRequest)
